@@ -38,6 +38,7 @@ type vfPolicySide struct {
 type vfPolicyCase struct {
 	C, S    vfPolicySide
 	KeyKind string // ecdsa | rsa | ed25519 | psk
+	Idx     int
 }
 
 func (p vfPolicyCase) ID() string {
@@ -45,7 +46,12 @@ func (p vfPolicyCase) ID() string {
 		return fmt.Sprintf("v%d-%d/su%x/cv%v/sg%x/ems%d/srtp%v/alpn%v/cid%d", s.MinV, s.MaxV, s.Suites, s.Curves, s.SigSchemes, s.EMS, s.SRTP, s.ALPN, s.CID)
 	}
 
-	return p.KeyKind + "|C:" + f(p.C) + "|S:" + f(p.S)
+	prov := ""
+	if p.KeyKind != "psk" && p.Idx%3 == 2 {
+		prov = "(cert via callback)"
+	}
+
+	return p.KeyKind + prov + "|C:" + f(p.C) + "|S:" + f(p.S)
 }
 
 func vfSubset[T any](r *rand.Rand, all []T, minN int) []T {
@@ -122,7 +128,7 @@ func vfSuiteKind(id CipherSuiteID) string {
 }
 
 func vfGenPolicyCase(r *rand.Rand, idx int) vfPolicyCase {
-	pc := vfPolicyCase{KeyKind: []string{"ecdsa", "ecdsa", "rsa", "ed25519", "psk"}[idx%5]}
+	pc := vfPolicyCase{KeyKind: []string{"ecdsa", "ecdsa", "rsa", "ed25519", "psk"}[idx%5], Idx: idx}
 	ranges := [][2]int{{12, 12}, {13, 13}, {12, 13}}
 	cr, sr := ranges[r.IntN(3)], ranges[r.IntN(3)]
 	if pc.KeyKind == "psk" {
@@ -230,10 +236,19 @@ func vfPolicyOptions(pc vfPolicyCase) ([]ClientOption, []ServerOption) {
 		cO = append(cO, WithPSK(psk), WithPSKIdentityHint([]byte("id")))
 		sO = append(sO, WithPSK(psk), WithPSKIdentityHint([]byte("hint")))
 	} else {
-		sO = append(sO, WithCertificates(pki.Leaf(pc.KeyKind, "server")))
 		cO = append(cO, WithRootCAs(pki.Pool), WithServerName(vfServerName))
 	}
 	so := vfSO(sO...)
+	if pc.KeyKind != "psk" {
+		// the credential comes from a static list or, for every third case, only from the per-hello callback:
+		// the key type must constrain the suite choice either way
+		leaf := pki.Leaf(pc.KeyKind, "server")
+		if pc.Idx%3 == 2 {
+			so = append(so, WithGetCertificate(func(*ClientHelloInfo) (*tls.Certificate, error) { return &leaf, nil }))
+		} else {
+			so = append(so, WithCertificates(leaf))
+		}
+	}
 	so = append(so, WithInsecureSkipVerifyHello(true))
 
 	return vfCO(cO...), so
